@@ -234,7 +234,7 @@ func run(t *testing.T, pc *world.ProducerChain, it *item, T int, pos string) (re
 
 func TestCheck(t *testing.T) {
 	r := vf.Start("C03", "exploration")
-	patterns := vf.Pick(r, []string{"ab", "ea"}, []string{"ab", "ea", "ae", "ee", "aba", "eab"})
+	patterns := vf.Pick(r, []string{"ab", "ea"}, []string{"ab", "ea", "ae", "ee", "abe", "eab", "bea"})
 	r.Assume = []string{
 		"the adversary has the proposer's public key and address, the chain so far, and its own key; it cannot sign with the proposer's key",
 		"genuine traffic arrives over the DA layer, one DA height per block; the adversarial item arrives over the DA layer, the P2P header store or the P2P data store, before block T-1, just before block T, or after block T",
